@@ -11,7 +11,7 @@ COMMON_ASSUMPTIONS = [
 ]
 
 PROPS = {}
-HOOK_COMMITS = []
+HOOK_COMMITS = ["e48b302"]
 NOT_YET = {}
 
 PROPS["C01"] = {
@@ -165,4 +165,33 @@ prop("C20",
      stages=[
          {"name": "main", "build": "fast", "bin": "c20"},
          {"name": "nostd", "build": "nostd", "bin": "c20"},
+     ])
+
+prop("C12",
+     technique="runtime monitoring: position-counter reference model over exhaustively enumerated pull schedules, unique-index source with pull counting; Miri (Stacked Borrows) and ASan stages",
+     level_text=("Capacities 1..=4 x every schedule in {A,B}^12 (quick) / {A,B}^16 (thorough) whose lead never exceeds the capacity, for by_ref and by_rc; every length-10 schedule "
+                 "re-split at every point (second by_ref; by_rc after by_ref); random schedules of length 2 000 / 10 000 with capacities to 64 that ride the lead at exactly "
+                 "+-capacity and flip its sign. After every single pull: returned frame index == branch position, source pull count == distinct frames, both "
+                 "pending_frames() == lag. Miri/ASan cover the ring-buffer unsafe code underneath. Exploration: schedule length is unbounded."),
+     level_note="trusted: the two-counter model; schedules that exceed the capacity are outside the statement and never generated",
+     rule=("cases are (capacity, mode, schedule); enumerated completely to the stated length, random beyond; non-trivial = the lead reaches the capacity or changes sign "
+           "(the doc-test pulls strictly alternately / 64 ahead once); distinct by hash of (capacity, mode, schedule); evaluations = individual pulls checked"),
+     stages=[
+         {"name": "main", "build": "fast", "bin": "c12"},
+         {"name": "miri", "build": "miri-sb", "bin": "c12", "shards": {"quick": 4, "thorough": 16}, "set": {"len": {"quick": 8, "thorough": 10}}, "timeout": {"quick": 1500, "thorough": 7200}},
+         {"name": "asan", "build": "asan", "bin": "c12"},
+     ])
+
+prop("C13",
+     technique="runtime monitoring: reference model (pulled, per-output start/position) over exhaustively enumerated send/next/drop sequences; backlog read through a cfg-guarded verification hook; counting-allocator monitor for lock-step pulling",
+     level_text=("Every legal sequence of send / next(i) / drop(i) / drop-bus-handle of length 9 (quick) / 11 (thorough) over <= 3 outputs and length-2 less over <= 4 outputs, each on an "
+                 "infinite source and on sources of length 0, 1, 2; random sequences of 1 000-6 000 operations with up to 8 live outputs (lazy output, racing output, "
+                 "lock-step phases, dropping the slowest / all / the Bus handle). After every operation: frame index, source pull count, every pending_frames(), "
+                 "is_exhausted, and via the hook backlog length == lag of the slowest live output and normalised read offsets. Allocator monitor: no heap growth over "
+                 "2e5 / 2e6 lock-step frames. Exploration: sequence length is unbounded."),
+     level_note="trusted: the reference model; the hook (dasp_signal/src/bus.rs, cfg rustaudio_dasp_verif) only reads buffer.len() and frames_read",
+     rule=("cases are operation sequences; enumerated completely to the stated depth, random beyond; non-trivial = contains a drop or an attach after the first "
+           "(the doc-test attaches all outputs up front and never drops); distinct by hash of the sequence; evaluations = operations checked"),
+     stages=[
+         {"name": "main", "build": "fast", "bin": "c13"},
      ])
